@@ -1,6 +1,6 @@
 ---- MODULE RingHashMC ----
 (* Stage (a) for C37: TLC enumerates endpoint sets (<= N endpoints, weights from W), ring size bounds and, for
-   the walk, every ring of <= WalkLen entries over 2 or 3 endpoints with every state assignment and request hash, and
+   the walk, every ring of <= WalkLen (2 endpoints) / WalkLen-1 (3 endpoints) entries with every state assignment and request hash, and
    checks that the reference satisfies the statement. *)
 EXTENDS RingHash, TLC
 CONSTANTS N, W, Bounds, WalkLen, Mutant
@@ -12,7 +12,7 @@ Init == kind \in {"count", "walk"} /\ x = <<>>
 Next == /\ UNCHANGED kind
         /\ \/ (kind = "count" /\ Len(x) = 0 /\ \E a \in Bounds, b \in Bounds : a <= b /\ x' = <<a, b>>)
            \/ (kind = "count" /\ Len(x) >= 2 /\ Len(x) < N + 2 /\ \E w \in W : x' = Append(x, w))
-           \/ (kind = "walk" /\ Len(x) = 0 /\ \E ne \in 2..3, len \in 1..WalkLen : \E own \in [1..len -> 1..ne], st \in [1..ne -> States] :
+           \/ (kind = "walk" /\ Len(x) = 0 /\ \E ne \in 2..3 : \E len \in 1..(WalkLen + 2 - ne) : \E own \in [1..len -> 1..ne], st \in [1..ne -> States] :
                   x' = <<own, st>>)
 Ws == SubSeq(x, 3, Len(x))
 \* Mutant 1 (negative control): the scale is not capped at maxR
